@@ -5,6 +5,7 @@ import (
 	"go/token"
 	"go/types"
 	"regexp"
+	"sort"
 	"strconv"
 	"strings"
 
@@ -227,6 +228,12 @@ func runChanDisc(c *core.Ctx) {
 				if cb == sel.Block() || an.Reachable(cb, sel.Block(), nil, nil) {
 					c.Bad(props, fname(c, fn), k, pos, "the <-ctx.Done() case does not leave the loop: after cancellation the select is entered again")
 					continue
+				}
+				if ctxV, _ := an.IsCtxDone(sel.States[di].Chan); ctxV != nil {
+					if why := foreignDone(c, fn, ctxV); why != "" {
+						c.Bad(props, fname(c, fn), k, pos, why)
+						continue
+					}
 				}
 				c.OK(props, fname(c, fn), k, pos, "DR1: blocking select with a <-ctx.Done() case that leaves ("+strings.Join(desc, ", ")+")")
 			case an.OpSend:
@@ -852,4 +859,148 @@ func tokenExplicit(fn *ssa.Function, acq *ssa.UnOp) (bool, string) {
 		}
 	}
 	return true, fmt.Sprintf("token acquired from %s and put back exactly once on every path to a return (%d explicit release(s))", an.PathOf(acq.X), len(rels))
+}
+
+// sessionReach: the module functions a session can run — everything the (CHA) call graph reaches
+// from the ServeNostr… / ServeHTTP methods, closures made on the way included.
+var sessionReachCache = map[*core.Program]map[*ssa.Function]bool{}
+
+func sessionReach(c *core.Ctx) map[*ssa.Function]bool {
+	P := c.P
+	if r, ok := sessionReachCache[P]; ok {
+		return r
+	}
+	cg := P.CallGraph(false)
+	seen := map[*ssa.Function]bool{}
+	var visit func(f *ssa.Function)
+	visit = func(f *ssa.Function) {
+		if f == nil || seen[f] || !P.InModule(f) {
+			return
+		}
+		seen[f] = true
+		// static calls and interface calls follow the graph; a call of a function value goes to the
+		// function values in view (CHA's "every function of that signature" would reach main itself)
+		if n := cg.Nodes[f]; n != nil {
+			for _, e := range n.Out {
+				if e.Site == nil || e.Site.Common().IsInvoke() || e.Site.Common().StaticCallee() != nil {
+					visit(e.Callee.Func)
+				}
+			}
+		}
+		an.Instrs(f, func(in ssa.Instruction) {
+			for _, op := range in.Operands(nil) {
+				if op == nil || *op == nil {
+					continue
+				}
+				switch x := (*op).(type) {
+				case *ssa.Function:
+					visit(x)
+				case *ssa.MakeClosure:
+					visit(x.Fn.(*ssa.Function))
+				}
+			}
+			if mc, ok := in.(*ssa.MakeClosure); ok {
+				visit(mc.Fn.(*ssa.Function))
+			}
+		})
+	}
+	for _, fn := range P.ModFuncs {
+		if fn.Parent() == nil && fn.Signature.Recv() != nil && (strings.HasPrefix(fn.Name(), "ServeNostr") || fn.Name() == "ServeHTTP") {
+			visit(fn)
+		}
+	}
+	sessionReachCache[P] = seen
+	return seen
+}
+
+// foreignDone: the context whose Done() releases a blocking select in session code is read from a
+// field of a longer-lived object — one that (also) receives its context outside any session, where
+// it is built — instead of being the operation's own: a session waiting here is released when that
+// object's context ends, not when the session's does. "" when the context is the caller's (a
+// parameter, a captured variable, something derived from those) or the holder is built per session.
+func foreignDone(c *core.Ctx, fn *ssa.Function, ctxV ssa.Value) string {
+	var fa *ssa.FieldAddr
+	v := ctxV
+	for i := 0; i < 8 && fa == nil; i++ {
+		switch x := v.(type) {
+		case *ssa.UnOp:
+			if x.Op != token.MUL {
+				return ""
+			}
+			if f, ok := x.X.(*ssa.FieldAddr); ok {
+				fa = f
+			} else {
+				return ""
+			}
+		case *ssa.Extract:
+			call, ok := x.Tuple.(*ssa.Call)
+			if !ok || !strings.HasPrefix(an.CalleeName(&call.Call), "context.With") || len(call.Call.Args) == 0 {
+				return ""
+			}
+			v = call.Call.Args[0]
+		case *ssa.Call:
+			if !strings.HasPrefix(an.CalleeName(&x.Call), "context.With") || len(x.Call.Args) == 0 {
+				return ""
+			}
+			v = x.Call.Args[0]
+		default:
+			return ""
+		}
+	}
+	if fa == nil {
+		return ""
+	}
+	reach := sessionReach(c)
+	top := fn
+	for top.Parent() != nil {
+		top = top.Parent()
+	}
+	if !reach[fn] && !reach[top] {
+		return ""
+	}
+	st := fieldStructOf(fa)
+	if st == nil {
+		return ""
+	}
+	fv := st.Field(fa.Field)
+	var outside []string
+	for _, g := range c.P.ModFuncs {
+		an.Instrs(g, func(in ssa.Instruction) {
+			s, ok := in.(*ssa.Store)
+			if !ok {
+				return
+			}
+			fa2, ok := s.Addr.(*ssa.FieldAddr)
+			if !ok {
+				return
+			}
+			if st2 := fieldStructOf(fa2); st2 == nil || st2.Field(fa2.Field) != fv {
+				return
+			}
+			gt := g
+			for gt.Parent() != nil {
+				gt = gt.Parent()
+			}
+			if !reach[g] && !reach[gt] {
+				outside = append(outside, fname(c, g)+" ("+c.P.Pos(s.Pos())+")")
+			}
+		})
+	}
+	if len(outside) == 0 {
+		return ""
+	}
+	sort.Strings(outside)
+	return "the select is released by the Done() of " + an.PathOf(ctxV) + ", a context the holder was given where it is built, outside any session (" + strings.Join(outside, ", ") + "), not by the session's own: a session blocked here stays blocked after its own context has ended"
+}
+
+func fieldStructOf(fa *ssa.FieldAddr) *types.Struct {
+	t := fa.X.Type()
+	if pt, ok := t.Underlying().(*types.Pointer); ok {
+		t = pt.Elem()
+	}
+	st, ok := t.Underlying().(*types.Struct)
+	if !ok || fa.Field >= st.NumFields() {
+		return nil
+	}
+	return st
 }
